@@ -1,7 +1,7 @@
 """C16 — queries are pure and observations stay coherent under in-place updates."""
 import json
 import random as _random
-from datetime import timedelta
+from datetime import timedelta, timezone
 
 import common
 from common import fbits, tf
@@ -77,6 +77,12 @@ def do_read(obj, name, arg=None):
         return json.dumps(obj.properties, sort_keys=True, default=str)
     if name == 'hash':
         return hash(obj)
+    if name == 'times':
+        # the time bounds as they are *rendered*: the same instant in another UTC offset prints differently
+        if obj.dt is None:
+            return None
+        return [obj.start.isoformat(), obj.end.isoformat(), str(obj.dt.start.utcoffset()), str(obj.dt.end.utcoffset()),
+                repr(obj.dt), str(obj.dt.elapsed)]
     if name == 'circ_circle':
         _random.seed(12345)          # Welzl's algorithm shuffles; the answer is compared between calls
         c = obj.circumscribing_circle()
@@ -93,17 +99,49 @@ def do_read(obj, name, arg=None):
     raise ValueError('unknown read ' + name)
 
 
-def twin_of(obj, kind, variant, nseq):
-    """a freshly constructed shape with the same geometry, time and properties (holes by pool id)"""
+LIVE = 'as-stored'
+
+
+def twin_of(obj, kind, variant, nseq, exp_dt=LIVE):
+    """a freshly constructed shape with the same geometry, time and properties (holes by pool id).  `exp_dt` are the
+    time bounds as the *caller wrote them* (None | (start datetime, end datetime), tracked along the history): the
+    twin is built from those very datetimes, so that also their rendering (offset, isoformat) is compared."""
     nh = 0
-    t = og.template(kind, variant, nh, nseq, og.dt_of(obj), {k: (list(v) if isinstance(v, list) else v)
-                                                           for k, v in obj._properties.items()})
+    _, _, TimeInterval = og.G()
+    props = {k: (list(v) if isinstance(v, list) else v) for k, v in obj._properties.items()}
+    if exp_dt == LIVE:
+        t = og.template(kind, variant, nh, nseq, og.dt_of(obj), props)
+    else:
+        t = og.template(kind, variant, nh, nseq, None, props,
+                        dt_obj=None if exp_dt is None else TimeInterval(exp_dt[0], exp_dt[1]))
     if hasattr(obj, 'holes'):
         ids = [og.hole_id(h) for h in obj.holes]
         if any(i < 0 for i in ids):
             return None
         t.holes = [og.mk_hole(i) for i in ids]
     return t
+
+
+def _zulu(d):
+    return d.replace(tzinfo=timezone.utc) if d.tzinfo is None else d
+
+
+def sim_dt(exp, m):
+    """what the mutator token means for the time bounds as written by the caller: (new bounds, failed?)"""
+    p = m.split(':')
+    if p[0] == 'setdt':
+        return (None, False) if p[1] == '_' else ((_zulu(og.mk_datetime(og.p_inst(p[1]))), _zulu(og.mk_datetime(og.p_inst(p[2])))), False)
+    if p[0] == 'setdtd':
+        d = _zulu(og.mk_datetime(og.p_inst(p[1])))
+        return (d, d), False
+    if p[0] == 'strip':
+        return None, False
+    if p[0] == 'buffer':
+        d = timedelta(microseconds=int(p[1]))
+        if exp is None or exp[1] + d < exp[0] - d:
+            return exp, True
+        return (exp[0] - d, exp[1] + d), False
+    return exp, False
 
 
 def _bounds_independent(obj, kind):
@@ -123,23 +161,51 @@ def _bounds_independent(obj, kind):
     return (min(xs), min(ys), max(xs), max(ys))
 
 
-def observe(obj, pristine, kind, variant, nseq):
-    twin = twin_of(obj, kind, variant, nseq)
-    flags = []
+_TWINS = {}
+
+
+def _twin_cached(obj, kind, variant, nseq, exp_dt):
+    """the reference side is a pure function of (kind, geometry, holes, properties, time bounds as written): build each
+    twin once, never mutate it, remember what it answers"""
+    ids = tuple(og.hole_id(h) for h in obj.holes) if hasattr(obj, 'holes') else None
+    if ids is not None and any(i < 0 for i in ids):
+        return None, None
+    when = og.dt_of(obj) if exp_dt == LIVE else (None if exp_dt is None else tuple((d.isoformat(), str(d.tzinfo)) for d in exp_dt))
+    key = (kind, variant, nseq, ids, repr(obj._properties), exp_dt == LIVE, when)
+    if key not in _TWINS:
+        if len(_TWINS) > 4000:
+            _TWINS.clear()
+        _TWINS[key] = (twin_of(obj, kind, variant, nseq, exp_dt), {})
+    return _TWINS[key]
+
+
+def coherence_flags(obj, kind, variant, nseq, exp_dt=LIVE):
+    twin, memo = _twin_cached(obj, kind, variant, nseq, exp_dt)
     if twin is None:
-        flags = ['s'] * 5
-    else:
-        ib = _bounds_independent(obj, kind)
-        flags.append('o' if tuple(obj.bounds) == tuple(twin.bounds) and (ib is None or tuple(obj.bounds) == ib) else 's')
-        flags.append('o' if _ck(obj.centroid) == _ck(twin.centroid) else 's')
-        flags.append('o' if (not hasattr(obj, 'area')) or obj.area == twin.area else 's')
-        flags.append('o' if obj.to_shapely().wkt == twin.to_shapely().wkt else 's')
-        rest = ['to_geojson', 'to_wkt', 'repr', 'properties', 'hash'] + [r for r in ('to_polygon', 'linear_rings', 'circ_rect')
-                                                                          if r in READS[kind]]
-        same = all(do_read(obj, r) == do_read(twin, r) for r in rest) and obj == twin and twin == obj
-        flags.append('o' if same else 's')
+        return 'sssss'
+
+    def ref(name, fn):
+        if name not in memo:
+            memo[name] = fn()
+        return memo[name]
+    flags = []
+    ib = _bounds_independent(obj, kind)
+    flags.append('o' if tuple(obj.bounds) == ref('bounds', lambda: tuple(twin.bounds)) and (ib is None or tuple(obj.bounds) == ib) else 's')
+    flags.append('o' if _ck(obj.centroid) == ref('centroid', lambda: _ck(twin.centroid)) else 's')
+    flags.append('o' if (not hasattr(obj, 'area')) or obj.area == ref('area', lambda: twin.area) else 's')
+    flags.append('o' if obj.to_shapely().wkt == ref('shapely', lambda: twin.to_shapely().wkt) else 's')
+    rest = ['to_geojson', 'to_wkt', 'repr', 'properties', 'hash', 'times'] + [r for r in ('to_polygon', 'linear_rings', 'circ_rect')
+                                                                               if r in READS[kind]]
+    same = (all(do_read(obj, r) == ref('r:' + r, lambda r=r: do_read(twin, r)) for r in rest) and obj == twin and twin == obj
+            # value semantics re-observed on the live object: it collapses with / is found by a fresh equal shape
+            and len({obj, twin}) == 1 and twin in {obj: 1} and obj in {twin: 1})
+    flags.append('o' if same else 's')
+    return ''.join(flags)
+
+
+def observe(obj, pristine, kind, variant, nseq, exp_dt=LIVE):
     vol = fbits(obj.volume) if kind in og.HAS_VOLUME else '_'
-    return f'{og.show_fields(obj, pristine)};drv={"".join(flags)};vol={vol}'
+    return f'{og.show_fields(obj, pristine)};drv={coherence_flags(obj, kind, variant, nseq, exp_dt)};vol={vol}'
 
 
 # ---- implementation side ------------------------------------------------------------------------------
@@ -158,9 +224,21 @@ def impl(line):
         return og.template(akind, avariant, 0, ARG_NSEQ, None, {})
     live, pristine = mk(), mk()
     arg, arg_pristine = mk_arg(), mk_arg()
+    d0 = og.p_dt(dt)
+    exp = [None if d0 is None else (_zulu(og.mk_datetime(d0[0])), _zulu(og.mk_datetime(d0[1])))]
 
-    def obs_both():
-        return f'{observe(live, pristine, kind, variant, nseq)}#{observe(arg, arg_pristine, akind, avariant, ARG_NSEQ)}'
+    arg_seen = {}
+
+    def obs_arg(full):
+        # the argument is fully re-observed after every call that was handed it (and at both ends of the history);
+        # in between its fields are re-read and the flags stand while the fields stand
+        fp = og.show_fields(arg, arg_pristine)
+        if full or arg_seen.get('fp') != fp:
+            arg_seen['fp'], arg_seen['obs'] = fp, observe(arg, arg_pristine, akind, avariant, ARG_NSEQ, None)
+        return arg_seen['obs']
+
+    def obs_both(full=True):
+        return f'{observe(live, pristine, kind, variant, nseq, exp[0])}#{obs_arg(full)}'
     out = ['ok#' + obs_both()]
     answers = {}
     for op in ops:
@@ -175,18 +253,23 @@ def impl(line):
                 answers[key] = a
             else:
                 inplace = p[-1] == '1'
-                ret = og.apply_mut(live, ':'.join(p[1:-1]), inplace)
+                mtok = ':'.join(p[1:-1])
+                ret = og.apply_mut(live, mtok, inplace)
+                new_exp, _failed = sim_dt(exp[0], mtok)
                 if inplace:
                     if ret is not live:
                         res = 'NOT-SELF'
                     answers = {}
+                    exp[0] = new_exp
+                elif ret is live:
+                    res = 'ALIAS'
                 else:
-                    res = 'ALIAS' if ret is live else 'ret:' + og.show_fields(ret, pristine)
+                    res = (f'ret:{og.show_fields(ret, pristine)};drv={coherence_flags(ret, kind, variant, nseq, new_exp)}')
         except common.ImplTimeout:
             raise
         except Exception as e:  # noqa
             res = common.err_name(e)
-        out.append(f'{res}#{obs_both()}')
+        out.append(f'{res}#{obs_both(p[0] == "q" or op is ops[-1])}')
     return ' | '.join(out)
 
 
@@ -197,7 +280,7 @@ def spec(line):
     parts = og.split_semis(args)
     kind, _variant, area, dt, props, nh, nseq, akind, _avariant = parts[0]
     area = common.unfbits(area)
-    dt = og.p_dt(dt)
+    dt = og.inst(og.p_dt(dt))
     props = og.parse_props(props)
     holes = '[' + ';'.join(str(i) for i in range(int(nh))) + ']' if kind in og.HAS_HOLES else '_'
     nseq_eff = (max(int(nseq) - 1, 1) + 1) if kind == 'polygon' else int(nseq)
@@ -225,7 +308,9 @@ def spec(line):
             m = p[1:-1]
             nd, np_, err = dt, dict((k, list(v) if isinstance(v, list) else v) for k, v in props.items()), None
             if m[0] == 'setdt':
-                nd = None if m[1] == '_' else (int(m[1]), int(m[2]))
+                nd = None if m[1] == '_' else (og.ival(m[1]), og.ival(m[2]))
+            elif m[0] == 'setdtd':
+                nd = (og.ival(m[1]), og.ival(m[1]))
             elif m[0] == 'strip':
                 nd = None
             elif m[0] == 'buffer':
@@ -244,7 +329,7 @@ def spec(line):
             elif inplace:
                 dt, props = nd, np_
             else:
-                res = 'ret:' + fields(nd, np_)
+                res = 'ret:' + fields(nd, np_) + ';drv=ooooo'
         out.append(f'{res}#{obs(dt, props)}#{argobs}')
     return ' | '.join(out)
 
@@ -323,9 +408,13 @@ def area_of(kind, variant, nh, nseq):
     return _AREA[key]
 
 
-UPDATES = ['setdt:_', f'setdt:{T0}:{T0}', f'setdt:{T0 + 7}:{T0 + 7}', f'setdt:{T0 + 5}:{T0 + 90_000_000}',
+# time bounds are written naive / UTC / in other offsets; `setdtd` passes a datetime, `setdt` a TimeInterval
+UPDATES = ['setdt:_', f'setdt:{T0}:{T0}', f'setdtd:{T0 + 7}', f'setdtd:{T0 + 7}@n', f'setdtd:{T0 + 7}@o120',
+           f'setdtd:{T0 + 11}@o-330', f'setdt:{T0 + 5}@o345:{T0 + 90_000_000}@o345', f'setdt:{T0 + 5}@n:{T0 + 90_000_000}',
            f'setdt:{T0}:{T0 + 1}', 'buffer:1000000', 'buffer:1', 'buffer:-30000000', 'buffer:-9000000000', 'strip',
            'setprop:k=5', 'setprop:n=7', 'setprop:l=[4;5]', 'setprop:k=[]']
+START_DTS = ['_', f'{T0}:{T0}', f'{T0}@n:{T0}@n', f'{T0}:{T0 + 60_000_000}', f'{T0}@o120:{T0 + 60_000_000}@o120',
+             f'{T0 + 3}@o-330:{T0 + 3_600_000_000}@n', f'{T0 + 3}:{T0 + 3_600_000_000}@o840']
 NSEQ = {'polygon': 5, 'linestring': 3, 'mpoint': 3, 'mline': 2, 'mpoly': 2}
 
 
@@ -338,8 +427,8 @@ def head(kind, variant, nh, dt, props, akind, avariant=0):
 def gen_systematic():
     """every kind x every update in both modes, each surrounded by every applicable read"""
     lines = []
-    dt = f'{T0}:{T0 + 60_000_000}'
-    for kind in og.KINDS:
+    for ki, kind in enumerate(og.KINDS):
+        dt = START_DTS[3 + ki % 4]
         for variant in ((0, 1) if kind == 'ring' else (0,)):
             nh = 1 if kind in og.HAS_HOLES else 0
             reads = READS[kind]
@@ -368,7 +457,7 @@ def gen_random(run, n, maxlen):
         kind = rng.choice(og.KINDS)
         variant = rng.choice([0, 1]) if kind in ('ring', 'polygon', 'box') else 0
         nh = rng.choice([0, 1, 2]) if kind in og.HAS_HOLES else 0
-        dt = rng.choice(['_', f'{T0}:{T0}', f'{T0}:{T0 + 60_000_000}', f'{T0 + 3}:{T0 + 3_600_000_000}'])
+        dt = rng.choice(START_DTS)
         props = rng.choice(['-', 'k=1', 'k=1,l=[1;2]', 'a=[],b=2'])
         ak = rng.choice(ARG_KINDS)
         ops = []
@@ -407,7 +496,10 @@ def check(run):
              'both inplace modes, failing calls included) surrounded by every read-only call of that kind, every read twice, every '
              'predicate against six kinds of argument shapes; plus seeded random histories of length <= 8 (thorough <= 12).  After '
              'EVERY step the full observation vector of the live shape and of the argument shape is compared with the model, with '
-             'the value-level meaning of the updates, and (flags) with a freshly constructed twin having the same fields.  '
+             'the value-level meaning of the updates, and (flags) with a freshly constructed twin having the same fields — built from the '
+             'time bounds exactly as the caller wrote them (naive / UTC / other offsets; datetime or TimeInterval argument), so that '
+             'also their rendering (isoformat, utcoffset, GeoJSON strings) and hash / == / set / dict behaviour against the twin are '
+             're-observed after every update.  '
              'Non-trivial = all; distinct by line.',
         assumptions=['derived observations (bounds, centroid, area, shapely form, WKT, GeoJSON, polygon form) are compared against a '
                      'freshly constructed twin, not recomputed by the model: what they are is the subject of C03/C09/C13/C14; bounds '
